@@ -20,7 +20,11 @@ Inductive c19case :=
    mode 0 = uuid list, 1 = transmit=all (every entry copied unchanged), 2 = transmit=flatten at the one version in ts *)
 | CTransfer (mode : nat) (src_changed : bool) (path ts : list nat)
             (data : list (entries * entries * list (nat * option bytes * option bytes)))
-| CTransferFail (typ : N).
+| CTransferFail (typ : N)
+(* TransferData of the whole store onto a fresh one (every version, or only the listed ones): the driver compares
+   the raw data keys; expected = data keys of the source that qualify, missing / extra / differ = qualifying keys
+   absent from the destination, destination keys that do not qualify, keys present with other bytes *)
+| CTransferData (filtered : bool) (expected missing extra differ : N) (src_changed : bool).
 
 Definition tent_eqb (a b : tent) : bool :=
   match a, b with
@@ -78,6 +82,7 @@ Definition model_ok (x : c19case) : bool :=
                                           end) reads
                       end) data
   | CTransferFail _ => false
+  | CTransferData _ _ missing extra differ chg => (missing =? 0) && (extra =? 0) && (differ =? 0) && negb chg
   end.
 
 Definition obs_same_value (a b : obs) : bool :=
@@ -122,6 +127,8 @@ Definition spec_class (x : c19case) : nat :=
     else if forallb (fun d => forallb (fun r => match r with (t, so, dd) => obytes_eqb so dd end) (snd d)) data
     then 0%nat else 5%nat
   | CTransferFail _ => 4%nat
+  | CTransferData _ _ missing extra differ chg =>
+    if chg then 6%nat else if (missing =? 0) && (extra =? 0) && (differ =? 0) then 0%nat else 5%nat
   end.
 
 Fixpoint classify_from (i : nat) (l : list c19case) : list (nat * nat) :=
